@@ -1,3 +1,4 @@
+mod cli;
 mod engines;
 mod enumerate;
 mod explore;
@@ -84,6 +85,27 @@ fn main() {
             let code = explore::conclude(&root, &meta, tier, seed, wall, &rep);
             scratch::cleanup();
             std::process::exit(code);
+        }
+        "replay" => {
+            forkrun::silence_panics();
+            let id = args.get(2).cloned().unwrap_or_else(|| usage());
+            let file = args.get(3).cloned().unwrap_or_else(|| usage());
+            let v: serde_json::Value = serde_json::from_str(&std::fs::read_to_string(&file).expect("read replay file")).expect("parse replay file");
+            let r = engines::replay(&id, &v["case"]);
+            scratch::cleanup();
+            match r {
+                Ok(Some(msg)) => {
+                    println!("VIOLATION property={id} replay={file} :: {msg}");
+                    std::process::exit(1);
+                }
+                Ok(None) => {
+                    println!("replay of {file}: property {id} holds on this case");
+                }
+                Err(e) => {
+                    println!("MACHINERY property={id} {e}");
+                    std::process::exit(2);
+                }
+            }
         }
         "selftest" => match selftest::run() {
             Ok(n) => println!("model self-test: {n} comparisons with the repository's expected outputs agree"),
